@@ -172,8 +172,119 @@ func (g *lgen) depsBlock(boms []string) (deps, mgmt []Dep) {
 	return
 }
 
+// jdkAround: plain <jdk> values drawn systematically around the JDK the pipeline is run with
+// (goEnvJDK = M.m.p): same major.minor with patch -1/equal/+1, same major with minor -1/+1,
+// major -1/+1, in one-, two- and three-component forms, longer forms, and the forms Maven's
+// prefix test treats specially (a digit prefix of the major number, trailing zeros).
+func jdkAround() []Jdk {
+	M, m, p := numAt(goEnvJDK, 0), numAt(goEnvJDK, 1), numAt(goEnvJDK, 2)
+	var vs [][]int
+	add := func(v ...int) {
+		for _, x := range v {
+			if x < 0 || x > 9999 {
+				return
+			}
+		}
+		vs = append(vs, v)
+	}
+	for _, dp := range []int{-1, 0, 1} {
+		add(M, m, p+dp)
+	}
+	for _, dm := range []int{-1, 1} {
+		add(M, m+dm, p)
+		add(M, m+dm)
+		add(M, m+dm, 0)
+	}
+	for _, dM := range []int{-1, 1} {
+		add(M+dM, m, p)
+		add(M+dM, m)
+		add(M + dM)
+	}
+	add(M)
+	add(M, m)
+	add(M, m, 0)
+	add(M, m, p, 0)
+	add(M, m, p, 1)
+	add(M, m, p+1, 0)
+	add(M, m, p, 0, 1)
+	add(M, 0)
+	add(M, 0, 0)
+	if M >= 10 {
+		add(M / 10) // "1" is a text prefix of "11.0.8"
+		add(M/10, m)
+	}
+	if p >= 10 {
+		add(M, m, p/10)
+	}
+	add(M, m, p*10)
+	add(1, 8)
+	out := make([]Jdk, len(vs))
+	for i, v := range vs {
+		out[i] = Jdk{Kind: 1, V: v}
+	}
+	return out
+}
+
+// jdkRangesAround: ranges whose bound is the running JDK's patch -1/equal/+1, open and closed.
+func jdkRangesAround() []Jdk {
+	M, m, p := numAt(goEnvJDK, 0), numAt(goEnvJDK, 1), numAt(goEnvJDK, 2)
+	var out []Jdk
+	for _, dp := range []int{-1, 0, 1} {
+		if p+dp < 0 {
+			continue
+		}
+		b := []int{M, m, p + dp}
+		for _, incl := range []bool{true, false} {
+			out = append(out, Jdk{Kind: 2, LoIncl: incl, Lo: b}, Jdk{Kind: 2, Hi: b, HiIncl: incl})
+		}
+	}
+	return out
+}
+
+// library rule and Maven's rule agree on this activation
+func jdkAgrees(j Jdk) bool {
+	f := Profile{Jdk: j}
+	a, ok := goActivated(f)
+	return ok && a == refActivated(f, libEnv())
+}
+
+// jdkLineages: every value of jdkAround/jdkRangesAround in a profile that overrides a property
+// and adds a dependency, next to an activeByDefault sibling doing the same, so that the
+// activation decision shows in the dependency list and in an interpolated version. The
+// profiles sit in the project itself or in its parent.
+func jdkLineages() []*Lineage {
+	var out []*Lineage
+	js := append(jdkAround(), jdkRangesAround()...)
+	for _, j := range js {
+		for variant := 0; variant < 3; variant++ {
+			profs := []Profile{{Jdk: j, Props: []Prop{{"p", "byjdk"}}, Deps: []Dep{{G: "g", A: "y", V: "1"}}}}
+			if variant != 1 {
+				profs = append(profs, Profile{Abd: "true", Props: []Prop{{"p", "bydefault"}}, Deps: []Dep{{G: "g", A: "z", V: "1"}}})
+			}
+			x := Dep{G: "g", A: "x", V: "${p}"}
+			if variant < 2 {
+				out = append(out, &Lineage{Root: Pom{G: "g", A: "child", V: "1.0", Props: []Prop{{"p", "base"}}, Deps: []Dep{x}, Profiles: profs}})
+			} else {
+				out = append(out, &Lineage{
+					Root: Pom{A: "child", Parent: Key{"g", "par", "1.0"}, Deps: []Dep{x}},
+					Repo: []Pom{{G: "g", A: "par", V: "1.0", Packaging: "pom", Props: []Prop{{"p", "base"}}, Profiles: profs}}})
+			}
+		}
+	}
+	return out
+}
+
 func (g *lgen) jdk() Jdk {
 	r := g.r
+	if r.Intn(3) == 0 { // systematic values around the running JDK
+		js := append(jdkAround(), jdkRangesAround()...)
+		for tries := 0; tries < 8; tries++ {
+			j := js[r.Intn(len(js))]
+			if g.m.OddAct || jdkAgrees(j) {
+				return j
+			}
+		}
+	}
 	if g.m.Bang && r.Intn(2) == 0 {
 		return Jdk{Kind: 1, Neg: true, V: [][]int{{1, 8}, {11}, {17}}[r.Intn(3)]}
 	}
